@@ -146,7 +146,7 @@ class C20(Scenario):
         "quick": [("uniform", 5), ("late-handler", 3), ("late-family", 4), ("faulted-init", 2), ("real-algs", 3)],
         "thorough": [("uniform", 5), ("late-handler", 3), ("late-family", 4), ("faulted-init", 3), ("real-algs", 4), ("long", 2)],
     }
-    runs = {"quick": 8000, "thorough": 150000}
+    runs = {"quick": 12000, "thorough": 200000}
     wall = {"quick": 70, "thorough": 900}
     rule = (
         "one run = one seeded interleaving of {register new Expr type, define algorithm class, "
@@ -164,7 +164,7 @@ class C20(Scenario):
 
     # -- generation
     def generate(self, rng, arm, tier, zpool):
-        salt = rng.choice([0, 1, 2, 3, 5, 7, 11, 42])
+        salt = rng.choice([0, 1, 7, 42])  # 3 nodes per run share a salt: few salts keep the zygote pool small
         units = []
         n_target = rng.randint(6, 40 if arm != "long" else 90)
         types = []  # (slot, name, base, abstract, kind)
